@@ -26,6 +26,7 @@ def run(ctx):
     # a connection arriving while the engine is stopping and the listener's loop is inside a callback
     t = system.record(ctx, "lateaccept", test="TestVerifLateAccept")
     system.validate(ctx, t, ["TrLife"], "late connection during shutdown")
+    system.engine_traces(ctx, t, "lateaccept")
     # the poller's side of a Shutdown answer: a (low-priority) task that returns ErrEngineShutdown ends Polling whatever is
     # queued behind it -- every schedule of Poller.tla's graph for such a script on the real poller
     from checks import c03
